@@ -3,7 +3,61 @@
 //! Part 1 (`ipa.rs`): the inner-product argument of the light aggregator.
 use mzkh::Ctx;
 
+mod gadget;
 mod ipa;
+
+use mzkh::family::{FamParams, GateKind, LookupKind};
+
+/// Inner-circuit shapes the in-circuit verifier supports (single phase, no challenge).
+fn inner_shapes() -> Vec<(FamParams, u32)> {
+    let base = FamParams { n_committed: 1, n_plain: 1, ..FamParams::default() };
+    vec![
+        // no lookup, smallest
+        (base.clone(), 0),
+        // lookups of both arities and a trash argument, rotations, several permutation sets
+        (
+            FamParams {
+                n_adv0: 4,
+                n_committed: 1,
+                n_plain: 1,
+                gates: vec![GateKind::Mul, GateKind::LinRot, GateKind::Pow(5), GateKind::Additive, GateKind::Complex],
+                lookups: vec![LookupKind::Range, LookupKind::Pair],
+                const_copies: true,
+                steps: 9,
+                ..FamParams::default()
+            },
+            0,
+        ),
+        // no committed instance column, larger k
+        (FamParams { n_committed: 0, n_plain: 1, lookups: vec![LookupKind::Range], ..FamParams::default() }, 2),
+        // two plain instance columns, lookup into an instance column, unblinded column
+        (
+            FamParams {
+                n_committed: 1,
+                n_plain: 2,
+                unblinded: true,
+                gates: vec![GateKind::Mul, GateKind::Pow(6)],
+                lookups: vec![LookupKind::AnyInstance],
+                ..FamParams::default()
+            },
+            1,
+        ),
+        (FamParams { n_committed: 0, n_plain: 2, gates: vec![GateKind::Pow(3)], ..FamParams::default() }, 0),
+    ]
+}
+
+fn run_gadget(ctx: &mut Ctx) {
+    let mut setup = gadget::Setup::new();
+    let shapes = inner_shapes();
+    let (n_shapes, n_mut) = match ctx.tier.as_str() {
+        "quick" => (2, 4),
+        "thorough" => (shapes.len(), 12),
+        _ => (3, 8),
+    };
+    for (i, (fp, extra_k)) in shapes.iter().take(n_shapes).enumerate() {
+        gadget::run_light(ctx, &mut setup, fp, *extra_k, 500 + i as u64, n_mut);
+    }
+}
 
 fn run_ipa(ctx: &mut Ctx) {
     let mut rng = ctx.rng("ipa");
@@ -34,6 +88,12 @@ fn run_ipa(ctx: &mut Ctx) {
 
 fn main() {
     let mut ctx = Ctx::from_args("C20");
-    run_ipa(&mut ctx);
+    let only = std::env::var("C20_ONLY").ok();
+    if only.as_deref().map_or(true, |o| o == "ipa") {
+        run_ipa(&mut ctx);
+    }
+    if only.as_deref().map_or(true, |o| o == "gadget") {
+        run_gadget(&mut ctx);
+    }
     ctx.finish();
 }
